@@ -186,6 +186,9 @@ func c11Build(r *core.Rng, fresh ...int) *c11Target {
 		if n.T == "stack" && r.Chance(1, 5) {
 			n.VPol = 1 + r.Intn(2)
 		}
+		if n.T == "stack" && n.Kind != "BASIC" && r.Chance(1, 6) {
+			n.PPol = true
+		}
 		if n.T == "stack" && r.Chance(1, 6) {
 			n.Kids = append(n.Kids, &TNode{T: "leaf", Leaf: &LeafDesc{Tag: "fresh-type"}})
 		}
@@ -531,7 +534,7 @@ func init() {
 		Setup:    c11Setup,
 		Teardown: c11Teardown,
 		Race:     true,
-		Rule: "sequential: random trees (depth <= 3; Conditions with Stack/Condition expressions, aliases, nil slots, every presentation/index option, mutex on 30% of the stacks, pure accepting/rejecting validity policies on a fifth, read-only on a third of the roots); every judged query " +
+		Rule: "sequential: random trees (depth <= 3; Conditions with Stack/Condition expressions, aliases, nil slots, every presentation/index option, mutex on 30% of the stacks, pure accepting/rejecting validity policies on a fifth, pure presentation policies on a sixth, read-only on a third of the roots); every judged query " +
 			"(the statement's list plus every Is*/Can* method, enumerated by reflection, each with argument variants) is issued on the root, on one nested Stack and on one Condition: answer recorded, recursive VerifDump snapshot compared, " +
 			"every container in the answer overwritten, query repeated: same answer, snapshot still identical; the lock-point hook must see no lock acquisition during a query. concurrent (whole run under the Go race detector): answers of the full query list computed in isolation, then 8..16 goroutines issue random queries " +
 			"against the one structure; every answer must equal the isolated one, the snapshot must be unchanged and the race log must be empty; every other tree is a cold start (parallel phase first, isolated answers afterwards) and every tree carries element types never seen before in the process, so that lazily filled caches are filled concurrently. non-trivial = tree of depth >= 2 containing a Condition; distinct = tree description.",
